@@ -393,6 +393,11 @@ func toolForErr[In, Out any](t *Tool, h ToolHandlerFor[In, Out], cache *SchemaCa
 
 		if res == nil {
 			res = &CallToolResult{}
+		} else {
+			// The structured content and its text rendering are added below: add
+			// them to a copy, the handler may hand out the same result again.
+			resCopy := *res
+			res = &resCopy
 		}
 
 		// Marshal the output and put the RawMessage in the StructuredContent field.
@@ -437,7 +442,7 @@ func toolForErr[In, Out any](t *Tool, h ToolHandlerFor[In, Out], cache *SchemaCa
 					Text: string(outJSON),
 				}}
 			} else if !isObjectJSON(outJSON) {
-				res.Content = append(res.Content, &TextContent{
+				res.Content = append(slices.Clip(res.Content), &TextContent{
 					Text: string(outJSON),
 				})
 			}
